@@ -26,6 +26,10 @@ structure Env where
   inhSet : Option Nat → Key → Val → Val → Option Bool   -- parent.[[Set]] decided it (setter / read-only); none = no such property
   callGetter : Nat → Val → Val                 -- Call(getter, receiver)
   cyc : Option Nat → Bool                      -- would this prototype create a cycle?
+  callable : Bool                              -- a function object is an ordinary object with [[Call]] (and [[Construct]])
+  constructor : Bool
+  callF : Val → List Val → OState → R Val × OState     -- the function body: any state transformer
+  consF : List Val → Val → OState → R Nat × OState
 
 def oLookup (props : List (Key × Cur)) (k : Key) : Option Cur :=
   match props with
@@ -128,6 +132,10 @@ def ordOps (E : Env) : Ops OState where
     | none => (.ok true, s)
     | some cur => if cur.configurable then (.ok true, { s with props := oRemove s.props k }) else (.ok false, s)
   ownKeys := fun s => (.ok ((s.props.map (·.1)).eraseDups), s)                   -- §10.1.11 (order of creation)
+  callable := E.callable
+  constructor := E.constructor
+  call := fun this args s => if E.callable then E.callF this args s else (.typeError, s)       -- §10.2.1
+  construct := fun args nt s => if E.constructor then E.consF args nt s else (.typeError, s)   -- §10.2.2
 
 def ordQueries : Queries OState where
   ext := fun s => s.ext
@@ -280,5 +288,7 @@ theorem ord_lawful (E : Env) : Lawful ordQueries (ordOps E) where
       · injection h with _ h2; subst h2
         simp [ordQueries, oLookup_remove, specDeleteCheck]
       · simp at h
+  call_nc := by intro hc this args s; simp only [ordOps] at hc ⊢; simp [hc]
+  construct_nc := by intro hc args nt s; simp only [ordOps] at hc ⊢; simp [hc]
 
 end GojaModel.C11
